@@ -94,10 +94,16 @@ func VerifC19ExplicitFalseMarshal(mode, shape int) {
 	}
 }
 
+type zz19PQ struct {
+	P int8 `json:"p"`
+	Q int8 `json:"q"`
+}
+
 type zz19U struct {
 	zz19V
-	D  time.Duration `json:"d"`
-	SS string        `json:"ss,string"`
+	D  time.Duration     `json:"d"`
+	SS string            `json:"ss,string"`
+	MM map[string]zz19PQ `json:"mm"` // pre-populated: a member mentioned partially merges into the existing entry
 }
 
 // VerifC19ExplicitFalseUnmarshal: the same for Unmarshal of a document with a symbolic hole.
@@ -115,8 +121,8 @@ func VerifC19ExplicitFalseUnmarshal(mode int, tmpl string) {
 		opts = []Options{&jsonopts.DefaultOptionsV1, DefaultOptionsV2()}
 	}
 	one, two := int8(1), int8(1)
-	v0 := zz19U{zz19V: zz19V{SP: &one, NS: []int8{4}, OE: zz19In{Q: 9}, Y: [2]byte{8, 8}}}
-	v1 := zz19U{zz19V: zz19V{SP: &two, NS: []int8{4}, OE: zz19In{Q: 9}, Y: [2]byte{8, 8}}}
+	v0 := zz19U{zz19V: zz19V{SP: &one, NS: []int8{4}, OE: zz19In{Q: 9}, Y: [2]byte{8, 8}}, MM: map[string]zz19PQ{"k": {P: 1, Q: 2}}}
+	v1 := zz19U{zz19V: zz19V{SP: &two, NS: []int8{4}, OE: zz19In{Q: 9}, Y: [2]byte{8, 8}}, MM: map[string]zz19PQ{"k": {P: 1, Q: 2}}}
 	err0 := Unmarshal(doc, &v0)
 	err1 := Unmarshal(doc, &v1, opts...)
 	vrt.Observe("k", k)
@@ -125,7 +131,7 @@ func VerifC19ExplicitFalseUnmarshal(mode int, tmpl string) {
 		vrt.Cover("unmarshal-ok")
 		same := v0.D == v1.D && v0.Y == v1.Y && bytes.Equal(v0.B, v1.B) && len(v0.NS) == len(v1.NS) && (v0.NS == nil) == (v1.NS == nil) &&
 			len(v0.NM) == len(v1.NM) && (v0.NM == nil) == (v1.NM == nil) && (v0.SP == nil) == (v1.SP == nil) && v0.SS == v1.SS &&
-			v0.OE == v1.OE && v0.OA == v1.OA && v0.Fld == v1.Fld
+			v0.OE == v1.OE && v0.OA == v1.OA && v0.Fld == v1.Fld && len(v0.MM) == len(v1.MM) && v0.MM["k"] == v1.MM["k"]
 		if same && v0.SP != nil {
 			same = *v0.SP == *v1.SP
 		}
